@@ -259,6 +259,9 @@ def attrs_of_json(a: dict) -> dict[int, str]:
         elif k == 'aggregator':
             asn, _, ip = v.strip('() ').partition(':')
             out[7] = f'{int(asn)}~{ip_hex(ip)}'
+        elif k == 'as4-aggregator':
+            asn, _, ip = v.strip('() ').partition(':')
+            out[18] = f'{int(asn)}~{ip_hex(ip)}'
         elif k == 'community':
             out[8] = ','.join(str((c[0] << 16) + c[1]) for c in v) or '-'
         elif k == 'originator-id':
@@ -346,7 +349,7 @@ def report_of_line(line: str) -> dict:
         return {'err': (int(ws[1]), int(ws[2]))}
     assert ws[0] == 'ok', line
     f = dict(w.split('=', 1) for w in ws[1:])
-    rep: dict = {'eor': None if f['eor'] == '-' else f['eor'], 'ann': [], 'wd': [], 'attrs': {}, 'raw': [] if f.get('raw', '-') == '-' else f['raw'].split('+')}
+    rep: dict = {'eor': None if f['eor'] == '-' else f['eor'], 'ann': [], 'wd': [], 'attrs': {}, 'raw': [] if f.get('raw', '-') == '-' else f['raw'].split('+'), 'agg': f.get('agg', '-/-').split('/')}
     rep['ann'] = sorted(set([] if f['ann'] == '-' else f['ann'].split('+')))
     rep['wd'] = sorted(set([] if f['wd'] == '-' else f['wd'].split('+')))
     for item in [] if f['attrs'] == '-' else f['attrs'].split(';'):
